@@ -700,7 +700,15 @@ func (ex *Exec) havocAllQuiet(st *State) {
 
 func (ex *Exec) havocCall(st *State, pos, what string) {
 	if ex.frameOn {
-		ex.oblige(st, "frame.call", "call without contract may modify anything: "+what, ex.p.False(), pos)
+		whole := false
+		for _, m := range ex.modSet {
+			if m.region == "*" {
+				whole = true // modifies heap: an unknown callee may touch the heap (ghost variables stay put)
+			}
+		}
+		if !whole {
+			ex.oblige(st, "frame.call", "call without contract may modify anything: "+what, ex.p.False(), pos)
+		}
 	}
 	ex.havocAll(st)
 	for k, v := range st.ghost {
